@@ -18,6 +18,9 @@ CLAIMED = {
  "C19": ("exploration", "4.12", "the raw stream under Protocol/ReceivableProtocol/PktLineParser is owned by the simulator: seeded partitions of encoded streams into read/recv chunks (all 2^(n-1) partitions for streams up to 13 bytes), EOF/reset at every offset, all 65536 hex prefixes plus non-hex prefixes, mutated and random byte strings, oversize payloads through every encoder, side-band splitting on three channels, capability/ref lines, pkt-lines followed by a pack through PackStreamReader; every decoder is compared with an independent reference codec",
          "reliable ordered byte streams (only fragmentation/EOF/reset injected); reference codec in the check is the oracle; C git's parser not compared",
          "deterministic simulation of the byte-stream seam: simulator-chosen read/recv partitions and stream endings, differential against a reference codec"),
+ "C05": ("exploration", "4.2", "sender and receiver repositories on simfs, dulwich client and dulwich upload-pack/receive-pack server as actors joined by simnet (or LocalGitClient): random commit DAGs, receiver = closure of a random sub-history plus private commits, fetch/clone/push with random wants, capability sets, depth, delta packs; the scheduler owns delivery chunking/delay (hence can_read-driven negotiation), bounded buffers and resets; oracle = model closure byte-identical in the receiver, nothing outside the requested closure arrives, failure leaves refs/object set unchanged, retry without faults completes",
+         "dulwich-to-dulwich only (C git and protocol v2 not inside the simulator); smart HTTP not simulated; schedules sampled",
+         "deterministic simulation: two nodes + simulated byte-stream network under seeded schedules with fault injection (fragmentation, delay, back-pressure, reset), closure oracle against an object model"),
 }
 NA = {
  "C01": "pure function of object field values / setter order: no schedule, clock, fault or I/O seam for a simulator to own (DESIGN.md section 5)",
